@@ -160,7 +160,7 @@ def jobs(tier, seed):
     quick = tier == "quick"
     for g in GRAMMARS:
         for level in ("char", "byte"):
-            L = (6 if level == "char" else 6) if quick else (8 if level == "char" else 9)
+            L = 7 if quick else (8 if level == "char" else 9)
             for rec in (["right"] if quick and level == "byte" else ["right", "left"]):
                 out.append(dict(case="lark", params=dict(grammar=g, level=level, recursion=rec, L=L), budget=dict(formula_ms=300000), timeout=1500))
     for g in (["twobyte", "paren"] if quick else ["twobyte", "paren", "mb3", "case"]):
@@ -183,7 +183,7 @@ INFO = dict(
                "error, not a verdict. Trusted: Lark's compiled rule list as the meaning of the rule grammar, CPython re, z3 sequence theory.",
     design_ref="DESIGN.md section 3 C19",
     explanation="Grammar from the real Lark front-end encoded for a symbolic z3 string vs the substitution semantics; unsat = same language on all strings up to L.",
-    bounds=dict(quick=dict(L=6, grammars=len(GRAMMARS)), thorough=dict(L="8 (char) / 9 (byte)", grammars=len(GRAMMARS))),
+    bounds=dict(quick=dict(L=7, grammars=len(GRAMMARS)), thorough=dict(L="8 (char) / 9 (byte)", grammars=len(GRAMMARS))),
     outside=["strings longer than L", "Lark features outside the supported subset", "weights of the produced grammar (only support is claimed)"],
     assumptions=["every non-ignored terminal matches at least one character"],
 )
